@@ -62,11 +62,11 @@ func c37ExecPat(i c37In) vh.Out {
 	obs["accepted"] = true
 	obs["num_variants"] = n
 	tags := []string{"pat-accepted"}
-	raws := c37Raw(pp.renderTree, 2001)
-	if n <= 0 || n > 2000 {
-		// the count wrapped (or the limit did not apply): only the first 2001 raw expansions are enumerated, nothing is rendered
+	raws := c37Raw(pp.renderTree, 1001)
+	if n <= 0 || n > 1000 {
+		// the count wrapped (or the limit did not apply): only the first 1001 raw expansions are enumerated, nothing is rendered
 		obs["enumerated"] = false
-		obs["raw_count_capped_at_2001"] = len(raws)
+		obs["raw_count_capped_at_1001"] = len(raws)
 		var coqRaws []string
 		for _, r := range raws {
 			coqRaws = append(coqRaws, vh.CoqBytes(r))
@@ -387,9 +387,9 @@ func c37Malformed(r *vh.Rand) string {
 	case 1:
 		return "/" + strings.Repeat("{", r.Range(995, 1002)) + "a" + strings.Repeat("}", r.Range(995, 1002))
 	case 2:
-		return "/" + strings.Repeat("{a,b}", r.Range(9, 11)) // 512, 1024, 2048 variants
+		return "/" + strings.Repeat("{a,b}", r.Range(10, 11)) + r.Pick([]string{"", "{a,b,c}"}) // 1024 .. 6144 variants: over the limit
 	case 3:
-		return "/{0,1,2,3,4,5,6,7,8,9}{0,1,2,3,4,5,6,7,8,9}{0,1,2,3,4,5,6,7,8,9" + r.Pick([]string{"}", ",a}", "}{a,}"})
+		return "/{0,1,2,3,4,5,6,7,8,9}{0,1,2,3,4,5,6,7,8,9}{0,1,2,3,4,5,6,7,8,9" + r.Pick([]string{",a}", "}{a,}", ",a,b}"}) // 1100, 2000, 1200
 	}
 	return r.Str("/ab{},*?\\[]", 1, 8)
 }
@@ -463,8 +463,13 @@ func c37Gen(r *vh.Rand, tier string, n int) []c37In {
 	}
 	var ins []c37In
 	// witnesses of the recorded finding and of the count limit
-	for _, p := range []string{"/**/*", "/**/**", "/a/**/*", "/a***", "/a//b", "/a/{}*", "/" + strings.Repeat("{a,b}", 64), "/" + strings.Repeat("{a,b}", 63) + "{a,b,c}"} {
-		ins = append(ins, c37In{Kind: "pat", Pattern: p, Paths: []string{"/", "/a", "/a/", "/a/b", "/ab", "/a/b/"}})
+	for _, p := range []string{"/**/*", "/**/**", "/a/**/*", "/a***", "/a//b", "/a/{}*", "/" + strings.Repeat("{a,b}", 64), "/" + strings.Repeat("{a,}", 63) + "{a,b,}",
+		"/{0,1,2,3,4,5,6,7,8,9}{0,1,2,3,4,5,6,7,8,9}{0,1,2,3,4,5,6,7,8,9}", "/{0,1,2,3,4,5,6,7,8,9}{0,1,2,3,4,5,6,7,8,9}{0,1,2,3,4,5,6,7,8,9}{,/}"} {
+		paths := []string{"/", "/a", "/a/", "/a/b", "/ab", "/a/b/"}
+		if len(p) > 40 {
+			paths = []string{"/123"}
+		}
+		ins = append(ins, c37In{Kind: "pat", Pattern: p, Paths: paths})
 	}
 	// exhaustive small scope: `/` followed by <= k tokens, every clean path of length <= 4 over a b /
 	k := 3
@@ -498,6 +503,9 @@ func c37Gen(r *vh.Rand, tier string, n int) []c37In {
 			ps = append(ps, c37Clean("/"+r.Str("ab/", 0, 5)))
 			for c := range ps {
 				ps[c] = c37Clean(ps[c])
+				if ps[c] == "" { // paths are absolute
+					ps[c] = "/"
+				}
 			}
 			ins = append(ins, c37In{Kind: "pat", Pattern: p, Paths: ps})
 		default:
